@@ -5,7 +5,7 @@ from vv import struct
 from vv.core import Result, exc_violation, innermost_is_harness
 
 ID = 'C09'
-CASES = {'quick': 150, 'thorough': 2500}
+CASES = {'quick': 400, 'thorough': 25000}
 RULE = ('Model-based stateful generation: a composite strategy threads a '
         'plain-dict reference hierarchy (vv/ref/tree.py) through its draws and '
         'emits a history of 1..6 (thorough: ..12) batches, each with 1..3 '
